@@ -44,17 +44,28 @@ pub struct SeqHooks {
 
 pub fn copy_store_files(src: &Path, dst: &Path) -> std::io::Result<()> {
     fs::create_dir_all(dst)?;
-    let em = src.join("event.map");
-    if em.exists() {
-        let _ = fs::copy(&em, dst.join("event.map"))?;
-    }
-    let l = src.join("lmdb");
-    if l.is_dir() {
-        fs::create_dir_all(dst.join("lmdb"))?;
-        for name in ["data.mdb", "lock.mdb"] {
-            let p = l.join(name);
-            if p.exists() {
-                let _ = fs::copy(&p, dst.join("lmdb").join(name))?;
+    // everything a killed process leaves in the directory: the event map, the index environment,
+    // and whatever other file the code under test may have created there (a staging file, a
+    // journal); the backups a rebuild left (`*.bak`) take no part in a later open and are skipped
+    for ent in fs::read_dir(src)? {
+        let ent = ent?;
+        let name = ent.file_name();
+        let name_s = name.to_string_lossy().to_string();
+        if name_s.ends_with(".bak") {
+            continue;
+        }
+        let p = ent.path();
+        let ft = ent.file_type()?;
+        if ft.is_file() {
+            let _ = fs::copy(&p, dst.join(&name))?;
+        } else if ft.is_dir() {
+            let sub = dst.join(&name);
+            fs::create_dir_all(&sub)?;
+            for e2 in fs::read_dir(&p)? {
+                let e2 = e2?;
+                if e2.file_type()?.is_file() {
+                    let _ = fs::copy(e2.path(), sub.join(e2.file_name()))?;
+                }
             }
         }
     }
